@@ -28,6 +28,15 @@ CLAIMED.update({
          "TLC; harness logger; interleavings sampled", "5 C16"),
 })
 
+CLAIMED.update({
+ "C04": (MC, "TLC: MC_Amf0 (reference Enc/Dec round trip, exhaustive on a small universe) + trace validation of library serialize->deserialize (Trace_Amf0: values compared in TLA+, numbers bitwise, objects as maps)",
+         "Every recorded encode call is judged by the specification: success requires that the bytes decode (library decoder) to the identical value sequence with all bytes consumed, and that the value is representable; a refusal is legal only for unrepresentable values.",
+         "TLC; harness logger; values are boundary-table driven + seeded random", "5 C04"),
+ "C12": (MC, "TLC: MC_Amf0 + Trace_Amf0: a reference AMF0 decoder written in TLA+ from the AMF0 specification reads the library's bytes (encoder direction) and defines what harness-made reference encodings denote (decoder direction, incl. all 256 markers, every truncation point)",
+         "The oracle for the wire format is the TLA+ module Amf0 (markers, widths, byte orders, terminator), independent of the library's marker constants; a change of a marker on both library sides is rejected.",
+         "Amf0.tla as a faithful reading of the AMF0 specification; TLC; harness logger and its reference encoder (validated by the TLA+ decoder per case: disagreement is a tool error)", "5 C12"),
+})
+
 NOT_YET = {}
 
 def main():
